@@ -48,7 +48,9 @@ func H_C15_keys(t *verifrt.T) {
 		// unit family: each unit is a symbolic byte, a backslash + symbolic byte, or \u00 + two symbolic bytes
 		nu := 1 + t.Choice("units", units)
 		for u := 0; u < nu; u++ {
-			switch t.Choice("unit", 3) {
+			switch t.Choice("unit", 4) {
+			case 3: // a surrogate escape: \ud8hh / \udChh with symbolic low byte
+				key = append(key, '\\', 'u', 'd', []byte{'8', 'c'}[t.Choice("sur", 2)], t.Byte("s0"), t.Byte("s1"))
 			case 0:
 				key = append(key, t.Byte("c"))
 			case 1:
